@@ -8,7 +8,7 @@
 
 using namespace vh;
 
-static long partinv_ncases(const std::string& tier) { return tier == "thorough" ? 1500 : 80; }
+static long partinv_ncases(const std::string& tier) { return tier == "thorough" ? 12000 : 80; }
 
 namespace {
 struct Obs {
